@@ -381,7 +381,8 @@ func checkC11(c *Ctx) {
 				vl = &Valuation{
 					Typed: true,
 					Enter: func(g *ssa.Function) bool {
-						return g != nil && g.Blocks != nil && PkgPathOf(g) == ExprPkg && NameOf(g) == "Bits"
+						// unexported helpers of the package are followed; its exported gadgets (Sub) stay calls
+						return g != nil && g.Blocks != nil && ((PkgPathOf(g) == ExprPkg && NameOf(g) == "Bits") || (PkgPathOf(g) == tpkg && !token.IsExported(NameOf(g))))
 					},
 					Int: func(v ssa.Value) (int64, bool) {
 						switch v {
